@@ -33,7 +33,9 @@ StructClause(e) ==
   ELSE IF \E b \in N : \E c \in Vis(e, b) : {e.kind[b], e.kind[c]} = {"int", "ext"} THEN <<"IntExtDisjoint", CHOOSE b \in N : \E c \in Vis(e, b) : {e.kind[b], e.kind[c]} = {"int", "ext"}>>
   \* "writes to ROM or read-only windows never change what is read": a cell the CONFIGURATION declares read-only (ROM window,
   \* ROM overlay, read-only range) may not be writable in the probed structure, whatever backs it
-  ELSE IF \E b \in N : e.ro[b] = 1 /\ Vis(e, b) # {} THEN <<"RomWindowImmutable", CHOOSE b \in N : e.ro[b] = 1 /\ Vis(e, b) # {}>>
+  \* ... neither by a store at the cell itself nor by a store at any other cell (an alias of it outside the declared range)
+  ELSE IF \E b \in N : e.ro[b] = 1 /\ (Vis(e, b) # {} \/ \E c \in N : b \in Vis(e, c))
+       THEN <<"RomWindowImmutable", CHOOSE b \in N : e.ro[b] = 1 /\ (Vis(e, b) # {} \/ \E c \in N : b \in Vis(e, c))>>
   ELSE <<"ok", 0>>
 
 TNext ==
